@@ -224,6 +224,29 @@ def campaign(c):
             if b is not None:
                 f = kv(parse(c, 'rr:3', b))
                 expect(c, 'dns::answer', f.get('data') == sh_hex(data) and f.get('type') == str(sel) and f.get('rest') == '-', 'RR of type %d with data %s: framing wrong' % (sel, [p.hex() for p in parts]), rep)
+    # content that looks like framing itself, deterministically: every look-alike header x a few tail lengths as the first, the
+    # middle and the only part of every helper's content (lengths always come from the bytes supplied, never from inside them)
+    PRE = [b'\x30\x82\x00\x04', b'\x30\x82\x01\x00', b'\x30\x82\x00\x00', b'\x30\x81\x05', b'\x30\x80', b'\x16\x03\x03\x00\x02', b'\x17\x03\x01\xff\xff', b'\x01\x00\x00\x03', b'\x0b\x00\x00\x00',
+           b'\x00\x00\x00\x05', b'\x00\x05', b'\x05', b'\x00', b'\xff\xff\xff', b'\x03www\x07example\x03com\x00', b'\x00\x00\x00\x0b\x00\x09\x00\x00\x06', b'\x35\x01\x05', b'\xff', b'\xc0\x0c']
+    HELP = [('tls::certificates', 'certs', [], lambda f, items: f.get('certs', '') == ','.join(sh_hex(x) for x in items)),
+            ('tls::sni', 'sni', [], lambda f, items: f.get('names', '') == ','.join(sh_hex(x) for x in items)),
+            ('tls::extension', 'extension', ['-=u16:10'], lambda f, items: f.get('data') == sh_hex(b''.join(items))),
+            ('tls::message', 'tlsrecord', [], lambda f, items: f.get('payload') == sh_hex(b''.join(items))),
+            ('std::len_be16', 'lenpfx:2', [], lambda f, items: f.get('body') == sh_hex(b''.join(items))),
+            ('std::len_u8', 'lenpfx:1', [], lambda f, items: f.get('body') == sh_hex(b''.join(items))),
+            ('dhcp::option', 'dhcpopt', ['-=u8:61'], lambda f, items: f.get('data') == sh_hex(b''.join(items))),
+            ('dns::answer', 'rr:3', ['-=' + s(b'\x01a\x00')], lambda f, items: f.get('data') == sh_hex(b''.join(items)))]
+    for pre in PRE:
+        for tl in (0, 1, 5, 40):
+            x = pre + bytes((7 * k + 1) % 256 for k in range(tl))
+            for items in ([x], [x, b'tail'], [b'head', x], [x, x]):
+                for fn, kind, lead, okf in HELP:
+                    res, req = call_both(c, [[fn] + lead + ['-=' + s(p_) for p_ in items]])
+                    b = val_bytes(res[0])
+                    if b is not None:
+                        f = kv(parse(c, kind, b))
+                        expect(c, fn, okf(f, items) and f.get('rest') == '-', '%s over content that looks like framing (%s...): declared lengths do not match the bytes supplied' % (fn, x[:6].hex()), dict(req=req))
+    c.count('look-alike-grid', len(PRE) * 4 * 4 * len(HELP))
     # DNS resource-record data inside the message dns::host builds: every answer declares RDLENGTH 4 and is followed by exactly its
     # address, for 0..n answers (an independent message parser walks the response record by record)
     for i in range(40 if c.quick else 600):
